@@ -54,6 +54,12 @@ Fixpoint somes {A} (l : list (option A)) : list A :=
   match l with [] => [] | Some a :: r => a :: somes r | None :: r => somes r end.
 Fixpoint nodupb (l : list nat) : bool := match l with [] => true | x :: r => negb (memb x r) && nodupb r end.
 
+(* does a (freshly generated) decision contain a custom decision: random_dna reached a CustomDecisionPoint, whose
+   random_dna_fn is user code (none is given: NotImplementedError) *)
+Fixpoint scust (d : sdna) : bool := match d with SSpace ds => existsb pcust ds end
+with pcust (x : pdna) : bool :=
+  match x with PChoices cs => existsb (fun c => scust (snd c)) cs | PFloat _ => false | PCustom _ => true end.
+
 Section Ops.
   Variable R : Type.
   Variable G : rng R.
@@ -102,22 +108,22 @@ Section Ops.
 
   (* re-drawing sub-choice j of a multi-choice (mutators.py:83-121) *)
   Definition redraw_sub (n : nat) (cands : list dspec) (dist srt : bool) (cs : list (nat * sdna)) (j : nat) (r : R)
-    : list (nat * sdna) * R :=
+    : list (nat * sdna) * R * bool :=       (* the flag: the new sub-tree could not be generated (it has a custom decision point) *)
     let sub_of := fun v r0 => with_nth (fun s => rand_dna s) (fun r' => (SSpace [], r')) cands v r0 in
     let fin := fun (cs' : list (nat * sdna)) => if srt then sort_by (fun a b => fst a <=? fst b) cs' else cs' in
     if dist then
       let avail := filter (fun v => negb (memb v (map fst cs))) (seq 0 n) in
       match avail with
-      | [] => (cs, r)                                   (* no other candidate: the clone is returned as is *)
+      | [] => (cs, r, false)                            (* no other candidate: the clone is returned as is *)
       | _ => let (i, r1) := pick G (length avail) r in
              let v := nth i avail O in
              let (sub, r2) := sub_of v r1 in
-             (fin (set_nth cs j (v, sub)), r2)
+             (fin (set_nth cs j (v, sub)), r2, scust sub)
       end
     else
       let (v, r1) := pick G n r in
       let (sub, r2) := sub_of v r1 in
-      (fin (set_nth cs j (v, sub)), r2).
+      (fin (set_nth cs j (v, sub)), r2, scust sub).
 
   Fixpoint mut_space (s : dspec) (top : bool) (d : sdna) (m : nat) (r : R) {struct s} : mres sdna :=
     match s, d with Space es, SSpace ds =>
@@ -127,14 +133,15 @@ Section Ops.
     match p, x with
     | Choices k cands dist srt _ _, PChoices cs =>
         let n := length cands in
-        let whole := fun (_ : unit) => let (x', r') := rand_p p r in Done x' r' in
+        let whole := fun (_ : unit) => let (x', r') := rand_p p r in if pcust x' then Fail ENotImpl else Done x' r' in
         let into := sub_into (fun s sub m' => mut_space s false sub m' r) cands cs in
         if k =? 1 then
           here (w_choice wh) m whole (fun m' => mmap PChoices (into O m'))
         else
           here (w_choice wh && negb fold) m whole (fun m0 =>
             mmap PChoices
-              (subs_walk (w_choice wh) (fun j => let (cs', r') := redraw_sub n cands dist srt cs j r in Done cs' r') into (seq 0 k) m0))
+              (subs_walk (w_choice wh) (fun j => match redraw_sub n cands dist srt cs j r with
+                                                 | (cs', r', false) => Done cs' r' | (_, _, true) => Fail ENotImpl end) into (seq 0 k) m0))
     | FloatP lo hi _, PFloat _ =>
         here (w_float wh) m (fun _ => let (f, r') := uniform G lo hi r in Done (PFloat f) r') Skip
     | CustomP _, PCustom _ =>
